@@ -720,6 +720,9 @@ func dbGen(r *rand.Rand, n int, length int, withReopen bool) []Case {
 			p, q := collidingKeys[r.Intn(len(collidingKeys))], collidingKeys[r.Intn(len(collidingKeys))]
 			caseKeys = []string{p[0], p[1], q[0], q[1]}
 			tags["hash-colliding-keys"] = true
+		} else if c%3 == 2 {
+			// a universe drawn from all special keys, not the front of the list
+			caseKeys = subsetKeys(r, nk)
 		}
 		type tx struct {
 			idx    int
@@ -745,7 +748,7 @@ func dbGen(r *rand.Rand, n int, length int, withReopen bool) []Case {
 			}
 			return o
 		}
-		if len(caseKeys) == 4 {
+		if tags["hash-colliding-keys"] {
 			// the pattern the conflict check exists for, on colliding keys: T reads both keys of a pair, U overwrites the one read
 			// second (then, in a second round, the one read first), T writes and commits: refused both times
 			for round := 0; round < 2; round++ {
@@ -867,6 +870,9 @@ func dbGen(r *rand.Rand, n int, length int, withReopen bool) []Case {
 		t := begin(false)
 		for k := 0; k < nk && k < len(userKeys); k++ {
 			ops = append(ops, fmt.Sprintf("get %d %s", t.idx, hxs(userKeys[k])))
+		}
+		for _, k := range caseKeys {
+			ops = append(ops, fmt.Sprintf("get %d %s", t.idx, hxs(k)))
 		}
 		ops = append(ops, fmt.Sprintf("discard %d", t.idx))
 		var tl []string
